@@ -17,3 +17,5 @@ func rtEvLog() []uint64 { return nil }
 const rtEnabled = false
 
 func rtYield(site uint32) {}
+
+func rtSpinBreaksNow() uint64 { return 0 }
